@@ -161,7 +161,7 @@ func greedyParts(f family, text string) int {
 var multiUnit = map[family][]string{
 	famGSM7U: {"[", "]", "{", "}", "^", "~", "|", "\\", "€", "\f"},
 	famGSM7P: {"[", "]", "{", "}", "^", "~", "|", "\\", "€", "\f"},
-	famUCS2:  {"😀", "𝄞", "𠀀", "🚀"},
+	famUCS2:  {"😀", "𝄞", "𠀀", "🚀", "🏳\ufe0f", "👨\u200d👩", "😀\u0301", "❤\ufe0f", "e\u0301", "\ufe0f", "\u200d", "👍🏽"},
 	famGBK:   {"中", "文", "😀", "À", "𠀀", "é"},
 }
 
@@ -281,6 +281,15 @@ type airPart struct {
 	payload []byte
 }
 
+// nearRepertoire: characters that sit next to a repertoire's members - case or accent variants of members, members
+// that resemble non-members - so that a table entry too many or too few shows.
+var nearRepertoire = map[family][]rune{
+	famGSM7U:  []rune("çÇàÀáéÉèÈêíìÌóòÒôúùÙûñÑäÄöÖüÜåÅæÆøØßẞ¡¿£¥¤€¢§©µ`´^~|\\{}[]\tΩωΔδΦφΓγΛλΠπΨψΣσΘθΞξαβ\u00a0\u00ad"),
+	famGSM7P:  []rune("çÇàÀáéÉèÈêíìÌóòÒôúùÙûñÑäÄöÖüÜåÅæÆøØßẞ¡¿£¥¤€¢§©µ`´^~|\\{}[]\tΩωΔδΦφΓγΛλΠπΨψΣσΘθΞξαβ\u00a0\u00ad"),
+	famASCII:  []rune("\u007f\u0080\u00a0\u00e9\u00ff\u0100\u2019\u201c\t\x01"),
+	famLatin1: []rune("\u0080\u0081\u008d\u0090\u009d\u009f\u00a0\u00ff\u0100\u0152\u0153\u0160\u0178\u017d\u0192\u02c6\u2013\u2022\u20ac\u2122\u2260\ufffd"),
+}
+
 func runLongSMS(r *core.Run) {
 	c := r.C
 	ctx := context.Background()
@@ -347,6 +356,14 @@ func runLongSMS(r *core.Run) {
 			rs[c.Intn(len(rs))] = []rune(c1Controls[c.Intn(len(c1Controls))])[0]
 			m.text = string(rs)
 			r.Probe("latin1_c1_control")
+		}
+		// one character replaced by a look-alike from just outside (or just inside) the requested repertoire: the
+		// reported coding must follow the reference repertoire, not a generous table
+		if nm := nearRepertoire[m.reqFam]; len(nm) > 0 && m.text != "" && !m.vendor && c.Prob(1, 6) {
+			rs := []rune(m.text)
+			rs[c.Intn(len(rs))] = nm[c.Intn(len(nm))]
+			m.text = string(rs)
+			r.Probe("near_repertoire_char")
 		}
 		msgs = append(msgs, m)
 	}
